@@ -26,11 +26,20 @@ for d in sorted(os.listdir(os.path.join(ROOT, "seeded"))):
         for pr in props:
             r = subprocess.run([os.path.join(ROOT, "check"), pr, "--tier", "quick"], capture_output=True, text=True, cwd=ROOT, timeout=3600)
             v = [l for l in r.stdout.splitlines() if l.startswith("VIOLATION")]
+            # the oracle signatures named in the replay files (second line: "# signature: …")
+            sigs = []
+            for l in v:
+                m = [t for t in l.split() if t.startswith("replay=")]
+                if m and os.path.exists(m[0][7:]):
+                    for rl in open(m[0][7:], errors="replace").read().splitlines()[:3]:
+                        if rl.startswith("# signature:"):
+                            sigs.append(rl[12:].strip())
+            v = [x + (" [" + ", ".join(sorted(set(sigs))) + "]" if i == 0 and sigs else "") for i, x in enumerate(v[:2])]
             res.append((pr, r.returncode, v[:2]))
     finally:
         subprocess.run(["git", "-C", REPO, "checkout", "--", "."])
     caught = any(rc == 1 and v for _, rc, v in res)
-    rows.append((d, prop, "CAUGHT" if caught else "MISSED", "; ".join(f"{pr}: rc={rc} {' | '.join(x[:110] for x in v)}" for pr, rc, v in res)))
+    rows.append((d, prop, "CAUGHT" if caught else "MISSED", "; ".join(f"{pr}: rc={rc} {' | '.join(x[:260] for x in v)}" for pr, rc, v in res)))
     subprocess.run(["rm", "-rf", os.path.join(ROOT, "replays")])
 for r in rows:
     print(" | ".join(r))
